@@ -29,6 +29,7 @@ type Opts struct {
 	MaxLen       int // maximum container length (default 4)
 	IfaceDynamic []reflect.Type
 	NoRepeat     bool // do not bias towards repeating earlier strings / interface values
+	NoNilIface   bool // interface{} positions are never nil (a typed-slice ListType setting turns nil elements into zero values)
 	pool         *pool
 	keyMode      bool // generating a map key: interface{} positions only get hashable scalars that stay distinct on the wire
 }
@@ -457,7 +458,7 @@ func fill(rt *rapid.T, v reflect.Value, depth int, o Opts) {
 		if t != TIface {
 			return
 		}
-		if rapid.IntRange(0, 6).Draw(rt, "niliface") == 0 {
+		if !o.NoNilIface && rapid.IntRange(0, 6).Draw(rt, "niliface") == 0 {
 			return
 		}
 		if o.keyMode {
@@ -483,7 +484,13 @@ func fill(rt *rapid.T, v reflect.Value, depth int, o Opts) {
 			}
 		}
 		if depth <= 0 && isContainer(dt) {
-			dt = tInt
+			dt = tBool
+			for _, cand := range dyn {
+				if !isContainer(cand) {
+					dt = cand
+					break
+				}
+			}
 		}
 		dv := Gen(rt, dt, depth-1, o)
 		if (dt.Kind() == reflect.Ptr || dt.Kind() == reflect.Map || dt.Kind() == reflect.Slice) && dv.IsNil() {
